@@ -34,6 +34,8 @@ def plan(tier, seed):
         shards.append({'name': 'targeted-%d' % i, 'fn': 'shard_targeted', 'args': {'part': i}})
     for i in range(2 if tier == 'quick' else 4):
         shards.append({'name': 'near-identical-subsampled-%d' % i, 'fn': 'shard_near_identical_subsampled', 'args': {'part': i}})
+    for i in range(2):
+        shards.append({'name': 'one-row-apart-%d' % i, 'fn': 'shard_one_row_apart', 'args': {'part': i}})
     shards.append({'name': 'views', 'fn': 'shard_views', 'args': {}})
     shards.append({'name': 'pipeline', 'fn': 'shard_pipeline', 'args': {}})
     return shards
@@ -189,6 +191,28 @@ def shard_targeted(sh, part):
                 kind = rng.choice(KINDS)
                 fY, gX = relabel(kind, Yv, rng, nprng), relabel(rng.choice(KINDS + ['identity']), X, rng, nprng)
                 observe(sh, est, Yv, X, fY, gX, kind, 'targeted/' + name, sample=(rep == 0 and n == 20))
+
+
+def shard_one_row_apart(sh, part):
+    """Two vectors that differ in a single row (the first, the last, one in the middle) are different vectors at every length - in
+    particular at lengths around the block sizes a chunked or vectorised comparison would use (2^k and 2^k +- 1, non-multiples)."""
+    import numpy as np
+    est = _est()
+    rng, nprng = sh.rng('one-row', part), sh.nprng('one-row', part)
+    sizes = [2, 3, 7, 8, 9, 63, 64, 65, 255, 256, 257, 1023, 1024, 1025, 4095, 4096, 4097, 5000, 8191, 8193, 12289, 16383, 16385, 16500, 20000, 65537]
+    if sh.tier == 'thorough':
+        sizes += [32769, 100003, 131073, 262145]
+    for n in sizes[part::2]:
+        for rep in range(2):
+            card = rng.choice([2, 5, 30])
+            X = nprng.integers(0, card, n).astype(np.int32)
+            for where in ('last', 'first', 'middle', 'last-few'):
+                Y = X.copy()
+                rows = {'last': [n - 1], 'first': [0], 'middle': [n // 2], 'last-few': list(range(max(0, n - 1 - n % 7), n))}[where]
+                for r_ in rows:
+                    Y[r_] = (X[r_] + 1) % (card + 1)
+                kind = rng.choice(KINDS)
+                observe(sh, est, Y, X, relabel(kind, Y, rng, nprng), relabel('identity', X, rng, nprng), kind, 'one-row-apart/' + where, sample=(n == 16500 and where == 'last'))
 
 
 def shard_near_identical_subsampled(sh, part):
